@@ -107,6 +107,38 @@ fn match_loop_shape(body: &str) -> Result<Vec<String>, String> {
     {
         return Err("the read is not followed by an unconditional acknowledgement".into());
     }
+    let parse_pats = |pats: &str| -> Result<Vec<String>, String> {
+        let mut finals = Vec::new();
+        for p in pats.split('|') {
+            let p = p.trim();
+            if p.is_empty() {
+                continue;
+            }
+            if !p.ends_with("( _ )") {
+                return Err(format!("pattern `{p}` is not Variant(_)"));
+            }
+            let path = p[..p.len() - 5].trim();
+            finals.push(path.rsplit(": :").next().unwrap().trim().to_string());
+        }
+        Ok(finals)
+    };
+    if !s.starts_with(&format!("match {var} {{")) {
+        // the equivalent shape `let last = matches!(p, A(_) | B(_)); yield p; if last { break; }`
+        if eat(&mut s, "let ") {
+            let flag: String = s.chars().take_while(|c| c.is_alphanumeric() || *c == '_').collect();
+            s = s[flag.len()..].trim_start();
+            if eat(&mut s, &format!("= matches ! ( {var} ,")) {
+                let close = s.find(") ;").ok_or("unterminated matches!")?;
+                let finals = parse_pats(&s[..close])?;
+                s = s[close + 3..].trim_start();
+                if eat(&mut s, &format!("yield {var} ; if {flag} {{ break ; }}")) && eat(&mut s, "}") && s.is_empty() {
+                    return Ok(finals);
+                }
+                return Err("matches! shape: not `yield p; if last { break; }`".into());
+            }
+        }
+        return Err("no match on the packet".into());
+    }
     if !eat(&mut s, &format!("match {var} {{")) {
         return Err("no match on the packet".into());
     }
